@@ -98,6 +98,7 @@ func runC17(c *Ctx, r *Report) {
 	defer c17r16(c, r)
 	defer c17r17(c, r)
 	defer c17r18(c, r)
+	defer c17r19(c, r)
 	po := l.Fn("fzf", "ParseOptions")
 	pos := l.Fn("fzf", "parseOptions")
 	if po == nil || pos == nil {
